@@ -113,7 +113,9 @@ class DiffTransform(DiffKernelMixin, Kernel):
         self.avg = avg
 
     def get_params(self, deep=True):
-        params = dict(kernel=self.kernel, exponent=self.exponent)
+        params = dict(
+            kernel=self.kernel, matrix=self.matrix, std=self.std, avg=self.avg
+        )
         if deep:
             deep_items = self.kernel.get_params().items()
             params.update(("kernel__" + k, val) for k, val in deep_items)
@@ -149,7 +151,12 @@ class DiffTransform(DiffKernelMixin, Kernel):
     def __eq__(self, b):
         if type(self) is not type(b):
             return False
-        return self.kernel == b.kernel and self.exponent == b.exponent
+        return (
+            self.kernel == b.kernel
+            and np.array_equal(self.matrix, b.matrix)
+            and np.array_equal(self.std, b.std)
+            and np.array_equal(self.avg, b.avg)
+        )
 
     def _transform(self, X):
         if X is None:
@@ -181,7 +188,7 @@ class DiffTransform(DiffKernelMixin, Kernel):
         return k, self._transform_bwd(dk)
 
     def __repr__(self):
-        return "{0} ** {1}".format(self.kernel, self.exponent)
+        return "DiffTransform({0})".format(self.kernel)
 
     def is_stationary(self):
         """Returns whether the kernel is stationary."""
